@@ -53,6 +53,16 @@ def run(ctx, config='rel-all'):
                 ctx.violation('R1', fn, 'callback:no-reservation', 'the initialiser runs before any space was reserved [%s]' % ' > '.join(arena.short(s[0]) for s in uc.stack))
                 continue
             e, out = rb
+            # R6 the space reserved is the space the initialiser fills: the layout is a type / value layout or the Ok payload of a
+            # validating constructor (Layout::array), never hand-made unchecked arithmetic -- a wrapped size would make an
+            # impossible request look reservable and the initialiser would run (C19.R2's origin rule on this call)
+            from . import c19
+            if len(e.args) > 1:
+                kind = c19.layout_origin(I, e.args[1], e.state.facts)
+                if kind:
+                    ctx.ok('R6', '%s via %s: the reservation is made with %s' % (fn, key, kind), show(e.args[1])[:60])
+                else:
+                    ctx.violation('R6', fn, 'reservation-layout', 'the space reserved before the initialiser runs is described by %s, which is neither a type/value layout nor the Ok payload of a validating constructor: an impossible size would wrap instead of being refused before the initialiser runs' % show(e.args[1])[:100], e.span)
             if out.startswith('std::ptr::NonNull') or out.startswith('core::ptr::NonNull'):
                 ctx.ok('R1', '%s via %s: callback after infallible reservation %s' % (fn, key, arena.short(e.callee)), 'failure of the reservation diverges (oom)')
                 continue
